@@ -56,8 +56,8 @@ def run(ctx):
     # positions in which an en-passant capture is possible (the double step is played by the specification), so that a
     # search treats the one capture that lands on an empty square alike for both colours
     r3 = ctx.tlc("Families", "Families_search.cfg", env={"VERIF_FAMILY": "ep", "VERIF_VARIANT": "rbq"[ctx.seed % 3], "VERIF_FILE": (ctx.seed * 3 + 1) % 8,
-                 "VERIF_EDGE": 0, "VERIF_NEAR": 0, "VERIF_HM": 0, "VERIF_EXTRA": "", "VERIF_EXTRA2": "", "VERIF_SLICE": ctx.seed % 16 if quick else ctx.seed % 2,
-                 "VERIF_SLICES": 16 if quick else 2, "VERIF_KEYS": ctx.keys()}, workers=NCPU, timeout=3000, name="mirror-fam-ep")
+                 "VERIF_EDGE": 0, "VERIF_NEAR": 0, "VERIF_HM": 0, "VERIF_EXTRA": "", "VERIF_EXTRA2": "", "VERIF_SLICE": ctx.seed % 16 if quick else ctx.seed % 8,
+                 "VERIF_SLICES": 16 if quick else 8, "VERIF_KEYS": ctx.keys()}, workers=NCPU, timeout=3000, name="mirror-fam-ep")
     if ctx.tlc_hard_errors(r3) or r3["violated"]:
         raise ToolError("TLC failed generating the en-passant family: %s" % (r3["errors"] + r3["violated"])[:3])
     fam_outs.append(r3)
@@ -76,11 +76,12 @@ def run(ctx):
         for r2 in fam_outs:
             k = 0
             only_ep = r2 is r3
+            limit = cap if not only_ep else (700 if quick else 3000)
             for line in open(r2["out_path"], errors="replace"):
                 # of the en-passant family only the positions in which the capture is available
                 if only_ep and not re.search(r' [a-h][36] \d+ \d+\\",\\"mirror', line):
                     continue
-                if line.startswith('<<"SPOS"') and '\\"nopromo\\":true' in line and k < cap:
+                if line.startswith('<<"SPOS"') and '\\"nopromo\\":true' in line and k < limit:
                     out.write(line)
                     n += 1
                     k += 1
